@@ -343,69 +343,7 @@ func ruleC18Round(p *Prog, a *Anchors, r *Report) {
 		r.Unk("anchor", "-", "anchor unresolved: (*tagWidthratioNode).Execute")
 		return
 	}
-	found := false
-	for _, b := range f.Blocks {
-		for _, in := range b.Instrs {
-			cvX, ok := floatToIntOperand(p, in)
-			if !ok {
-				continue
-			}
-			found = true
-			key := "widthratio:rounding"
-			c, isCall := cvX.(*ssa.Call)
-			name := ""
-			if isCall && c.Common().StaticCallee() != nil {
-				name = p.extName(c.Common().StaticCallee())
-			}
-			var ratio ssa.Value
-			switch name {
-			case "math.Round", "math.RoundToEven":
-				ratio = c.Common().Args[0]
-				r.OK(key, p.InstrPos(in), "int(%s(x))", name)
-			case "math.Floor":
-				if bo, ok := c.Common().Args[0].(*ssa.BinOp); ok && bo.Op == token.ADD && isHalf(bo.Y) {
-					ratio = bo.X
-					r.OK(key, p.InstrPos(in), "int(math.Floor(x + 0.5))")
-				} else {
-					r.Bad(key, p.InstrPos(in), "math.Floor without +0.5 truncates instead of rounding")
-				}
-			case "math.Ceil":
-				r.Bad(key, p.InstrPos(in), "math.Ceil(…) maps every exact integer ratio n to n+1 (or rounds everything up): not the documented value")
-			default:
-				if bo, ok := cvX.(*ssa.BinOp); ok && bo.Op == token.ADD && isHalf(bo.Y) {
-					ratio = bo.X
-					r.OK(key, p.InstrPos(in), "int(x + 0.5) for non-negative x")
-				} else {
-					r.Bad(key, p.InstrPos(in), "the ratio is converted with %s, which truncates instead of rounding to nearest", p.VN(cvX))
-				}
-			}
-			if ratio != nil {
-				// ratio = current/max*width
-				okShape := false
-				if mul, ok := ratio.(*ssa.BinOp); ok && mul.Op == token.MUL {
-					if div, ok := mul.X.(*ssa.BinOp); ok && div.Op == token.QUO {
-						cur, mx, w := floatOfField(p, div.X), floatOfField(p, div.Y), floatOfField(p, mul.Y)
-						if cur == "current" && mx == "max" && w == "width" {
-							okShape = true
-						} else {
-							r.Bad("widthratio:operands", p.InstrPos(in), "ratio is %s/%s*%s, documented is current/max*width", cur, mx, w)
-						}
-					}
-				}
-				if okShape {
-					r.OK("widthratio:operands", p.InstrPos(in), "current/max*width")
-				} else {
-					r.Unk("widthratio:operands", p.InstrPos(in), "cannot recognise the ratio expression %s", p.VN(ratio))
-				}
-			}
-		}
-	}
-	if !found {
-		r.Unk("widthratio:rounding", p.Pos(f.Pos()), "no float→int conversion found")
-	}
-	// … and that conversion is the only way the printed number comes about: what the tag writes (or binds) is, on every
-	// path, a constant or the rounded ratio — not the result of an integer division (which truncates toward zero, so
-	// the "add half the divisor" idiom is off by one for every negative ratio)
+	// what the tag writes (Sprintf operands) or binds (map update), followed back through the helpers whose results it is
 	var sinks []ssa.Value
 	for _, b := range f.Blocks {
 		for _, in := range b.Instrs {
@@ -421,33 +359,76 @@ func ruleC18Round(p *Prog, a *Anchors, r *Report) {
 			}
 		}
 	}
-	for _, sv := range sinks {
-		bad := ""
-		seen := map[ssa.Value]bool{}
-		var walk func(v ssa.Value, d int)
-		walk = func(v ssa.Value, d int) {
-			if seen[v] || d > 8 || bad != "" {
-				return
+	var helpers []*ssa.Function
+	intDivs := make([]string, len(sinks))
+	for i, sv := range sinks {
+		var hs []*ssa.Function
+		intDivs[i], hs = c18WrittenValue(p, sv)
+		helpers = append(helpers, hs...)
+	}
+	found := false
+	// the conversion may sit in Execute or in a helper the computation was extracted into
+	for _, in := range c18ConversionSites(p, f, helpers) {
+		cvX, ok := floatToIntOperand(p, in)
+		if !ok {
+			continue
+		}
+		found = true
+		key := "widthratio:rounding"
+		c, isCall := cvX.(*ssa.Call)
+		name := ""
+		if isCall && c.Common().StaticCallee() != nil {
+			name = p.extName(c.Common().StaticCallee())
+		}
+		var ratio ssa.Value
+		switch name {
+		case "math.Round", "math.RoundToEven":
+			ratio = c.Common().Args[0]
+			r.OK(key, p.InstrPos(in), "int(%s(x))", name)
+		case "math.Floor":
+			if bo, ok := c.Common().Args[0].(*ssa.BinOp); ok && bo.Op == token.ADD && isHalf(bo.Y) {
+				ratio = bo.X
+				r.OK(key, p.InstrPos(in), "int(math.Floor(x + 0.5))")
+			} else {
+				r.Bad(key, p.InstrPos(in), "math.Floor without +0.5 truncates instead of rounding")
 			}
-			seen[v] = true
-			switch x := v.(type) {
-			case *ssa.MakeInterface:
-				walk(x.X, d+1)
-			case *ssa.Phi:
-				for _, e := range x.Edges {
-					walk(e, d+1)
-				}
-			case *ssa.UnOp:
-				if lv := localLoadValue(x); lv != nil {
-					walk(lv, d+1)
-				}
-			case *ssa.BinOp:
-				if isIntType(x.Type()) && (x.Op == token.QUO || x.Op == token.REM) {
-					bad = p.InstrPos(x)
-				}
+		case "math.Ceil":
+			r.Bad(key, p.InstrPos(in), "math.Ceil(…) maps every exact integer ratio n to n+1 (or rounds everything up): not the documented value")
+		default:
+			if bo, ok := cvX.(*ssa.BinOp); ok && bo.Op == token.ADD && isHalf(bo.Y) {
+				ratio = bo.X
+				r.OK(key, p.InstrPos(in), "int(x + 0.5) for non-negative x")
+			} else {
+				r.Bad(key, p.InstrPos(in), "the ratio is converted with %s, which truncates instead of rounding to nearest", p.VN(cvX))
 			}
 		}
-		walk(sv, 0)
+		if ratio != nil {
+			// ratio = current/max*width
+			okShape := false
+			if mul, ok := ratio.(*ssa.BinOp); ok && mul.Op == token.MUL {
+				if div, ok := mul.X.(*ssa.BinOp); ok && div.Op == token.QUO {
+					cur, mx, w := floatOfField(p, div.X), floatOfField(p, div.Y), floatOfField(p, mul.Y)
+					if cur == "current" && mx == "max" && w == "width" {
+						okShape = true
+					} else {
+						r.Bad("widthratio:operands", p.InstrPos(in), "ratio is %s/%s*%s, documented is current/max*width", cur, mx, w)
+					}
+				}
+			}
+			if okShape {
+				r.OK("widthratio:operands", p.InstrPos(in), "current/max*width")
+			} else {
+				r.Unk("widthratio:operands", p.InstrPos(in), "cannot recognise the ratio expression %s", p.VN(ratio))
+			}
+		}
+	}
+	if !found {
+		r.Unk("widthratio:rounding", p.Pos(f.Pos()), "no float→int conversion found")
+	}
+	// … and that conversion is the only way the printed number comes about: what the tag writes (or binds) is, on every
+	// path, a constant or the rounded ratio — not the result of an integer division (which truncates toward zero, so
+	// the "add half the divisor" idiom is off by one for every negative ratio)
+	for _, bad := range intDivs {
 		if bad != "" {
 			r.Bad("widthratio:every-path-rounds", bad, "on one path the number the tag writes is the result of an integer division: Go truncates toward zero, so (current*width + max/2)/max is off by one for every negative ratio (-30 40 100 gives -74)")
 		}
@@ -532,22 +513,10 @@ func isHalf(v ssa.Value) bool {
 	return ok && c.Value != nil && c.Value.ExactString() == "1/2"
 }
 
-// floatOfField: v = X.Float() where X is the evaluated node field; returns the field name.
+// floatOfField: v = X.Float() where X is the evaluated node field; returns the field name. Inside an extracted helper
+// X (or v) is a parameter: then it is what the call sites hand over.
 func floatOfField(p *Prog, v ssa.Value) string {
-	c, ok := v.(*ssa.Call)
-	if !ok || c.Common().StaticCallee() == nil || c.Common().StaticCallee().Name() != "Float" {
-		return "?"
-	}
-	ex, ok := c.Common().Args[0].(*ssa.Extract)
-	if !ok {
-		return "?"
-	}
-	ev, ok := ex.Tuple.(*ssa.Call)
-	if !ok || !ev.Common().IsInvoke() {
-		return "?"
-	}
-	_, _, fld := fieldLoadBase(ev.Common().Value)
-	return fld
+	return c18FloatOfField(p, v, 0)
 }
 
 // ruleC18Base: numbers are parsed/printed in base 10 everywhere in the value layer.
@@ -1117,16 +1086,8 @@ func ruleC18FloatDiv(p *Prog, a *Anchors, r *Report) {
 				for _, q := range quos {
 					n++
 					key := p.FuncName(f) + ":int(float/…)"
-					g := Guarded(in, func(c ssa.Value, pol bool) bool {
-						bo, ok := c.(*ssa.BinOp)
-						if !ok || p.VN(bo.X) != p.VN(q.Y) {
-							return false
-						}
-						if k, isC := bo.Y.(*ssa.Const); !isC || k.Value == nil || constant.Sign(k.Value) != 0 {
-							return false
-						}
-						return (bo.Op == token.NEQ && pol) || (bo.Op == token.EQL && !pol) || (bo.Op == token.GTR && pol)
-					})
+					// the test in this function, or — for a helper's parameter — in front of every call of the helper
+					g := c18DivisorZeroTested(p, in, q.Y)
 					if g {
 						r.OK(key, p.InstrPos(in), "the divisor %s was tested against zero", p.VN(q.Y))
 					} else {
@@ -1235,24 +1196,7 @@ func floatToIntOperand(p *Prog, in ssa.Instruction) (ssa.Value, bool) {
 			return x.X, true
 		}
 	case *ssa.Call:
-		f := x.Common().StaticCallee()
-		if f == nil || !p.InPkg(f) || f.Blocks == nil || len(f.Params) != 1 || f.Signature.Results().Len() != 1 || !isFloatType(f.Params[0].Type()) {
-			return nil, false
-		}
-		conv := false
-		for _, ret := range returnsOf(f) {
-			switch rv := res(ret, 0).(type) {
-			case *ssa.Const:
-			case *ssa.Convert:
-				if rv.X != ssa.Value(f.Params[0]) {
-					return nil, false
-				}
-				conv = true
-			default:
-				return nil, false
-			}
-		}
-		if conv {
+		if floatToIntHelper(p, x.Common().StaticCallee()) {
 			return x.Common().Args[0], true
 		}
 	}
